@@ -92,6 +92,36 @@ def call_impl(prog: Program, rep: Report):
             ok = False
     rep.decide(ok, "G9.return-shape", fi, "returns", "(batch, ctx) iff return_ctx",
                "a return hands back the pair without return_ctx, or the bare batch with it", clause="C18.2")
+    # the wrapper around a single collator: same contract, the flag lives on the instance
+    W = prog.cls("KDSingleCollatorWrapper", required=False)
+    wc = W.methods.get("__call__") if W is not None else None
+    if wc is not None:
+        wa = fa_of(prog, wc)
+        rep.analysed_add("functions", f"{wc.module.relpath}:{wc.qualname}")
+        flag = ("self", "return_ctx")
+        okw = None
+        why = "the returns of KDSingleCollatorWrapper.__call__ are not selected by self.return_ctx alone: not decided"
+        rets_w = wa.returns()
+        if rets_w and all(t_ is not None for _, t_ in rets_w):
+            okw = True
+            for n_, t_ in rets_w:
+                cs = wa.conds_at(n_)
+                pair_ = t_[0] == "tuple" and len(t_[1]) == 2
+                if flag in cs and pair_:
+                    continue
+                if ("not", flag) in cs and not pair_:
+                    continue
+                if any(c_ not in (flag, ("not", flag)) and contains(c_, flag) for c_ in cs):
+                    okw = False
+                    why = (f"the return at line {wa.line(n_)} is selected by {show([c_ for c_ in cs if contains(c_, flag)][0])[:60]}, "
+                           f"not by the truth of self.return_ctx: with return_ctx=False the pair is returned as well")
+                    break
+                okw = False if (flag in cs) != pair_ and (flag in cs or ("not", flag) in cs) else None
+                why = (f"the return at line {wa.line(n_)} hands back {'the pair' if pair_ else 'the bare batch'} on the "
+                       f"{'return_ctx' if flag in cs else 'not return_ctx'} path") if okw is False else why
+                if okw is not True:
+                    break
+        rep.decide(okw, "G9.return-shape", wc, "wrapper-returns", "(batch, ctx) iff self.return_ctx", why, clause="C18.2")
 
 
 class _Unknown(Exception):
